@@ -168,7 +168,9 @@ func checkAPI(c APICase) error {
 					}
 					bodyCopy = bodyCopy || strings.Contains(bodyText.String(), t)
 				}
-				if !bodyCopy && strings.Contains(sf, t) {
+				// line by line: across a line break the end of one line and the start of the next can spell the
+				// marginal text by accident ("page 9" above "948" reads "page9948" without white space)
+				if !bodyCopy && lineContains(f, t) {
 					return fmt.Errorf("page %d: %s %q stands at the same marginal place on every page but is still in Text() under ExcludeHeadersAndFooters", i+1, fr.Role, fr.T)
 				}
 			}
@@ -180,7 +182,6 @@ func checkAPI(c APICase) error {
 		if err != nil {
 			return fmt.Errorf("Pages(%v) with exclusion failed: %v", c.Subset, err)
 		}
-		ss := strip(sub)
 		var wholeBody strings.Builder
 		for _, q := range d.Pages {
 			_, qh := q.Box()
@@ -198,13 +199,23 @@ func checkAPI(c APICase) error {
 				if fr.InBody(h) || len([]rune(t)) < 4 || !hasLetter.MatchString(t) || strings.Contains(wholeBody.String(), t) {
 					continue
 				}
-				if strings.Contains(ss, t) && !strings.Contains(sf, t) {
+				if lineContains(sub, t) && !strings.Contains(sf, t) {
 					return fmt.Errorf("Pages(%v)+exclusion (%s) shows the marginal text %q of page %d; the whole document under the same option shows it on no page", c.Subset, c.Option, fr.T, pn)
 				}
 			}
 		}
 	}
 	return nil
+}
+
+// lineContains reports whether one line of text, white space removed, contains t.
+func lineContains(text, t string) bool {
+	for _, l := range strings.Split(text, "\n") {
+		if strings.Contains(strip(l), t) {
+			return true
+		}
+	}
+	return false
 }
 
 func strip(s string) string {
